@@ -11,7 +11,9 @@ From Coq Require Import List NArith ZArith Bool.
 From WV Require Import Lib.PyBytes Gen.GenTables Model.Task Spec.ClientParse
   Proof.TaskHead Proof.TaskStart Proof.TaskRun Proof.TaskChunk Proof.TaskClient Proof.TaskOracle
   Proof.TaskC08 Proof.TaskC09 Proof.TaskFrame Proof.TaskBody Proof.TaskSimple Proof.TaskFrameClient
-  Proof.TaskFrameEnd Proof.TaskC03.
+  Proof.TaskFrameEnd Proof.TaskC03
+  Proof.TaskFrame2Sem Proof.TaskFrame2Run Proof.TaskFrame2Head Proof.TaskFrame2End Proof.TaskFrame2Err
+  Proof.TaskFrame2File Proof.TaskFrame2FileEnd Proof.TaskC03b.
 Import ListNotations.
 Local Open Scope N_scope.
 
@@ -230,3 +232,270 @@ Theorem C03_write_then_file_framed :
                   /\ rs_framing resp = FChunked /\ rs_body resp = lit "xabcdef".
 Proof. exact write_then_file_framed. Qed.
 Print Assumptions C03_write_then_file_framed.
+
+(* ======================================================================== *)
+(* The end-to-end frame statement widened towards the property's quantifier.
+   Proofs: Proof/TaskFrame2Sem.v (Task.write sequences as a pure function:
+   chunk coding / Content-Length clamp / no-body statuses), TaskFrame2Run.v
+   (through WSGITask.execute, finish and HTTPChannel.service), TaskFrame2Head.v
+   (what the client finds in the head), TaskFrame2End.v, TaskFrame2File.v +
+   TaskFrame2FileEnd.v (file wrapper), TaskFrame2Err.v (failures, error
+   responses), TaskC03b.v (closed instances + examples).
+
+   Class of applications [wapp status hs ws kind chunks hc]:
+     start_response(status, hs) once; then write(w) for each w in ws (empty
+     ones included: write(b"") sends the head); then an iterable of [kind]
+     delivering [chunks] (empty ones included); close() iff hc; nothing raised;
+     client connected.
+   [no_handover kind ws]: the iterable is iterated by the task -- it is not a
+     file wrapper, or the file is not seekable, or write() was called before
+     (commit 5ee3173).  A file wrapper stops at its first empty read:
+     [produced kind chunks] is what the iterable delivers.
+   [sl_of r status] = "HTTP/1.x " ++ status;  [no_body_st] = 1xx / 204 / 304;
+   [keep_of r] = the persistence decision for a response of known length
+     (1.1: no close asked; 1.0: keep-alive asked; and no connection_close verdict).
+
+   Still outside these theorems (covered by the client lemmas above, by
+   C03_close_too_few / C03_close_after_failure, and by K-task + the search on the
+   real wire): several start_response calls; header names that take part in
+   framing other than the one Content-Length; write() inside iteration steps; a
+   sized iterable of length 1 without declared length (the server then declares
+   the chunk's length); a declared positive length when nothing at all is written
+   (the head is built after the decision to close); a declared length together
+   with a 1xx/204/304 status; a seekable file SHORTER than the declared length
+   (prepare(size) replaces the application's header) and an empty seekable file;
+   pipelining depth (parse_stream over several
+   service() calls: C04).  Error responses to HEAD requests carry a body (see
+   C03_frame_error: stated for the client of a non-HEAD request). *)
+
+(* (1) no declared length; write() and/or chunks; any iterable that is iterated:
+   chunked on HTTP/1.1, close-delimited on HTTP/1.0; the client recovers the bytes
+   passed to write() followed by the bytes the iterable delivered; "Connection:
+   close" is announced and the connection is closed. *)
+Theorem C03_frame_write : forall c r status hs ws kind chunks hc,
+  cfg_clean c ->
+  r_error r = None -> no_handover kind ws -> len1 kind = false -> Forall (not_cl py_lower) hs ->
+  plain_fields py_cap (strs_of hs) ->
+  r_head r = false -> no_body_st status = false ->
+  let res := run_task c r (wapp status hs ws kind chunks hc) None in
+  o_raw res = None ->
+  exists fields,
+    parse_one false (wire (o_writes res))
+    = Some (mkResponse (sl_of r status) fields
+                       (if beqb (r_version r) (lit "1.1") then FChunked else FEof)
+                       (concat ws ++ produced kind chunks), [])
+    /\ (forall h, In h (strs_of hs) -> In (client_field (norm_field py_cap h)) fields)
+    /\ In (client_field f_close) fields
+    /\ o_close res = true /\ o_next res = false.
+Proof. exact c03_frame_write. Qed.
+Print Assumptions C03_frame_write.
+
+(* ... and for HEAD (no body bytes; write(b"") and empty chunks allowed): nothing
+   is left over after the head. *)
+Theorem C03_frame_write_head : forall c r status hs ws kind chunks hc,
+  cfg_clean c ->
+  r_error r = None -> no_handover kind ws -> len1 kind = false -> Forall (not_cl py_lower) hs ->
+  plain_fields py_cap (strs_of hs) ->
+  r_head r = true -> concat ws ++ produced kind chunks = [] ->
+  let res := run_task c r (wapp status hs ws kind chunks hc) None in
+  o_raw res = None ->
+  exists fields,
+    parse_one true (wire (o_writes res)) = Some (mkResponse (sl_of r status) fields FNoBody [], [])
+    /\ (forall h, In h (strs_of hs) -> In (client_field (norm_field py_cap h)) fields)
+    /\ In (client_field f_close) fields
+    /\ o_close res = true /\ o_next res = false.
+Proof. exact c03_frame_write_head. Qed.
+Print Assumptions C03_frame_write_head.
+
+(* (3) 1xx / 204 / 304 without a declared length: whatever the application writes
+   or yields is dropped, the head carries neither Transfer-Encoding nor
+   Content-Length and announces "Connection: close", the client (HEAD or not) reads
+   the head and nothing is left over, and the connection is closed. *)
+Theorem C03_frame_nobody : forall c r status hs ws kind chunks hc,
+  cfg_clean c ->
+  r_error r = None -> no_handover kind ws -> len1 kind = false -> Forall (not_cl py_lower) hs ->
+  plain_fields py_cap (strs_of hs) ->
+  no_body_st status = true ->
+  let res := run_task c r (wapp status hs ws kind chunks hc) None in
+  o_raw res = None ->
+  exists fields,
+    parse_one (r_head r) (wire (o_writes res)) = Some (mkResponse (sl_of r status) fields FNoBody [], [])
+    /\ (forall h, In h (strs_of hs) -> In (client_field (norm_field py_cap h)) fields)
+    /\ In (client_field f_close) fields
+    /\ filter (field_is te_name) fields = [] /\ filter (field_is cl_name) fields = []
+    /\ o_close res = true /\ o_next res = false.
+Proof. exact c03_frame_nobody. Qed.
+Print Assumptions C03_frame_nobody.
+
+(* (1)+(2) a declared Content-Length ([declared_ok]: one such header at any
+   position, decimal value cl, plain names around it, a status with a body).
+   The produced bytes reach the declared length -- exactly, or more and then the
+   body is CUT there: the client reads exactly the declared number of bytes, they
+   are the first bytes produced (write() first, then the iterable), nothing is
+   left over; the connection is kept exactly when the head does not announce
+   closing.  Subsumes C03_frame_length_partial. *)
+Theorem C03_frame_length_cut : forall c r status pre post clname v cl ws kind chunks hc,
+  declared_ok c r status pre post clname v cl ws kind ->
+  let hs := pre ++ (PStr clname, PStr v) :: post in
+  let all := concat ws ++ produced kind chunks in
+  let res := run_task c r (wapp status hs ws kind chunks hc) None in
+  r_head r = false -> (cl <= Z.of_nat (length all))%Z ->
+  o_raw res = None ->
+  exists fields,
+    parse_one false (wire (o_writes res))
+    = Some (mkResponse (sl_of r status) fields (FLength (dec_value v)) (firstn (N.to_nat (dec_value v)) all), [])
+    /\ (forall h, In h (strs_of hs) -> In (client_field (norm_field py_cap h)) fields)
+    /\ o_next res = keep_of r /\ o_close res = negb (keep_of r)
+    /\ (keep_of r = false -> In (client_field f_close) fields)
+    /\ (keep_of r = true -> ~ In (client_field f_close) fields).
+Proof. exact c03_frame_length_cut. Qed.
+Print Assumptions C03_frame_length_cut.
+
+(* FEWER bytes than declared (at least one write() call or non-empty chunk): the
+   response cannot be delimited as announced.  The client has the status line and
+   the fields and is still waiting (parse_one = None on what was sent; for every
+   completion [pad] of the missing length it would read produced ++ pad), and the
+   connection is closed, not reused -- whatever the head announced. *)
+Theorem C03_frame_length_short : forall c r status pre post clname v cl ws kind chunks hc,
+  declared_ok c r status pre post clname v cl ws kind ->
+  let hs := pre ++ (PStr clname, PStr v) :: post in
+  let all := concat ws ++ produced kind chunks in
+  let res := run_task c r (wapp status hs ws kind chunks hc) None in
+  r_head r = false -> (Z.of_nat (length all) < cl)%Z -> ws ++ eff kind chunks <> [] ->
+  o_raw res = None ->
+  exists fields,
+    parse_one false (wire (o_writes res)) = None
+    /\ (forall pad, lenN (all ++ pad) = dec_value v ->
+          parse_one false (wire (o_writes res) ++ pad)
+          = Some (mkResponse (sl_of r status) fields (FLength (dec_value v)) (all ++ pad), []))
+    /\ (forall h, In h (strs_of hs) -> In (client_field (norm_field py_cap h)) fields)
+    /\ o_close res = true /\ o_next res = false.
+Proof. exact c03_frame_length_short. Qed.
+Print Assumptions C03_frame_length_short.
+
+(* HEAD with a declared length (any value) and no body bytes: the client reads
+   the head, nothing is left over, the connection is kept exactly when the head
+   does not announce closing. *)
+Theorem C03_frame_length_head : forall c r status pre post clname v cl ws kind chunks hc,
+  declared_ok c r status pre post clname v cl ws kind ->
+  let hs := pre ++ (PStr clname, PStr v) :: post in
+  let all := concat ws ++ produced kind chunks in
+  let res := run_task c r (wapp status hs ws kind chunks hc) None in
+  r_head r = true -> all = [] ->
+  o_raw res = None ->
+  exists fields,
+    parse_one true (wire (o_writes res)) = Some (mkResponse (sl_of r status) fields FNoBody [], [])
+    /\ (forall h, In h (strs_of hs) -> In (client_field (norm_field py_cap h)) fields)
+    /\ o_next res = keep_of r /\ o_close res = negb (keep_of r)
+    /\ (keep_of r = false -> In (client_field f_close) fields)
+    /\ (keep_of r = true -> ~ In (client_field f_close) fields).
+Proof. exact c03_frame_length_head. Qed.
+Print Assumptions C03_frame_length_head.
+
+(* (4) wsgi.file_wrapper.  Not seekable, or after write(): iterated in blocks up to
+   the first empty read -- that is [no_handover] in the five theorems above.
+   Seekable, nothing written before, something to send ([fapp]): prepare(size)
+   reconciles the length, write(b"") sends the head, the file is handed to the
+   channel (o_handover; close() is the channel's business).  Without a declared
+   length the server declares the file's size and the client reads exactly the
+   file's bytes ... *)
+Theorem C03_frame_file : forall c r status hs chunks hc,
+  cfg_clean c ->
+  r_error r = None -> Forall (not_cl py_lower) hs -> plain_fields py_cap (strs_of hs) ->
+  r_head r = false -> no_body_st status = false ->
+  file_content (plain_steps chunks) <> [] ->
+  let content := file_content (plain_steps chunks) in
+  let res := run_task c r (fapp status hs chunks hc) None in
+  o_raw res = None ->
+  exists fields,
+    parse_one false (wire (o_writes res))
+    = Some (mkResponse (sl_of r status) fields (FLength (lenN content)) content, [])
+    /\ (forall h, In h (strs_of hs) -> In (client_field (norm_field py_cap h)) fields)
+    /\ o_next res = keep_of r /\ o_close res = negb (keep_of r)
+    /\ (keep_of r = false -> In (client_field f_close) fields)
+    /\ (keep_of r = true -> ~ In (client_field f_close) fields)
+    /\ o_handover res = true /\ o_closes res = 0%nat.
+Proof. exact c03_frame_file. Qed.
+Print Assumptions C03_frame_file.
+
+(* ... and with a declared length not larger than the file (a LONGER file is cut by
+   prepare(size)) the application's header stays and the client reads exactly the
+   declared number of bytes from the start of the file. *)
+Theorem C03_frame_file_declared : forall c r status pre clname v post cl chunks hc,
+  cfg_clean c ->
+  r_error r = None ->
+  Forall (not_cl py_lower) post ->
+  beqb (py_lower clname) (lit "content-length") = true -> py_int v = Some cl ->
+  all_digits v = true -> Z.of_N (dec_value v) = cl ->
+  plain_fields py_cap (strs_of pre) -> plain_fields py_cap (strs_of post) ->
+  norm_name py_cap clname = lit "Content-Length" ->
+  r_head r = false -> no_body_st status = false ->
+  let content := file_content (plain_steps chunks) in
+  (0 < cl)%Z -> (cl <= Z.of_nat (length content))%Z ->
+  let hs := pre ++ (PStr clname, PStr v) :: post in
+  let res := run_task c r (fapp status hs chunks hc) None in
+  o_raw res = None ->
+  exists fields,
+    parse_one false (wire (o_writes res))
+    = Some (mkResponse (sl_of r status) fields (FLength (dec_value v)) (firstn (N.to_nat (dec_value v)) content), [])
+    /\ (forall h, In h (strs_of hs) -> In (client_field (norm_field py_cap h)) fields)
+    /\ o_next res = keep_of r /\ o_close res = negb (keep_of r)
+    /\ (keep_of r = false -> In (client_field f_close) fields)
+    /\ (keep_of r = true -> ~ In (client_field f_close) fields)
+    /\ o_handover res = true /\ o_closes res = 0%nat.
+Proof. exact c03_frame_file_declared. Qed.
+Print Assumptions C03_frame_file_declared.
+
+(* (5) a failure after the head was sent -- an exception raised by the application
+   at any later step (iteration, write(), close()), or the client going away --
+   for EVERY script and schedule: the connection is closed, not reused; nothing
+   more is written (no 500 is appended to the partial response); nothing escapes. *)
+Theorem C03_close_after_failure : forall c r a disc e,
+  let res := run_task c r a disc in
+  o_raw res = Some e -> o_wrote_header1 res = true ->
+  o_close res = true /\ o_next res = false /\ o_escaped res = None
+  /\ o_served_500 res = false /\ o_writes res = o_writes1 res.
+Proof. exact (fail_after_head py_cap py_lower). Qed.
+Print Assumptions C03_close_after_failure.
+
+(* (6) error responses (request.error set by the parser: ErrorTask), for every code
+   / reason / body text that is free of CR/LF and has a body-bearing code: the
+   client of a non-HEAD request reads exactly one response with the error's status
+   line, exactly Content-Length body bytes which are Error.to_response's text,
+   nothing is left over, the head says "Connection: close" exactly once (no
+   Keep-Alive next to it), and the connection is closed. *)
+Theorem C03_frame_error : forall c r a code reason body,
+  cfg_clean c -> r_error r = Some ((code, reason), body) -> clean code -> clean reason ->
+  startswith (code ++ [32] ++ reason) (lit "1") || startswith (code ++ [32] ++ reason) (lit "204")
+    || startswith (code ++ [32] ++ reason) (lit "304") = false ->
+  let res := run_task c r a None in
+  o_raw res = None ->
+  let bodyb := err_body c reason body in
+  exists fields,
+    parse_one false (wire (o_writes res))
+    = Some (mkResponse (sl_err (r_version r) (code ++ [32] ++ reason)) fields (FLength (lenN bodyb)) bodyb, [])
+    /\ filter (field_is (lit "connection")) fields = [(lit "Connection", lit "close")]
+    /\ In (client_field err_header) fields
+    /\ o_close res = true /\ o_next res = false /\ o_served_500 res = false /\ o_escaped res = None.
+Proof. exact frame_error. Qed.
+Print Assumptions C03_frame_error.
+
+(* ... and the 500 the ladder builds when the application failed before any output
+   (C08_served_500: then o_writes res = response_500 ... (o_nws1 res)): whenever
+   that error task itself completes, the client reads exactly one response
+   "500 Internal Server Error" with Content-Length body bytes and a single
+   "Connection: close" (that the connection is then closed: C09_outcome). *)
+Theorem C03_frame_500 : forall c r n,
+  cfg_clean c ->
+  let body := if c_expose_tracebacks c then c_tb c else internal_error_text in
+  let er := mkReq (r_version r) (r_connection r) false false (Some (err_InternalServerError, body)) in
+  x_out (task_run py_cap py_lower c er None (new_task (r_version r) true, mkChan [] n)
+                  (inr (err_InternalServerError, body))) = Ok tt ->
+  let bodyb := err_body c (lit "Internal Server Error") body in
+  exists fields,
+    parse_one false (wire (response_500 py_cap py_lower c r None n))
+    = Some (mkResponse (sl_err (r_version r) (lit "500 Internal Server Error")) fields (FLength (lenN bodyb)) bodyb, [])
+    /\ filter (field_is (lit "connection")) fields = [(lit "Connection", lit "close")]
+    /\ In (client_field err_header) fields.
+Proof. exact frame_response_500. Qed.
+Print Assumptions C03_frame_500.
